@@ -2912,7 +2912,15 @@ class LinearOperator(object):
                 if _is_tensor_index_moved_to_start(orig_indices):
                     res = res.view(*tensor_index_shape, *res.shape[1:])
                 else:
-                    res = res.view(*res.shape[:-1], *tensor_index_shape)
+                    # (adjacent tensor indices stay in place: the flattened dimension sits after the slices that precede
+                    # the first tensor index - which is the last dimension only if no slice follows them)
+                    pos = 0
+                    for idx in orig_indices:
+                        if torch.is_tensor(idx):
+                            break
+                        if isinstance(idx, slice):
+                            pos += 1
+                    res = res.view(*res.shape[:pos], *tensor_index_shape, *res.shape[pos + 1 :])
         else:
             res = self._getitem(row_index, col_index, *batch_indices)
 
